@@ -13,7 +13,17 @@
    duplication changes the final value (checked on the model: Sensitive):
        "seq"    F[i](x) = Append(x, i)                    on sequences of integers
        "arith"  F[i](x) = (x * (i*i + 1) + 2*i + 1) % Mod on 0 .. Mod-1 (Mod prime; x * 401 stays below 2^31)
-   The Go harness supplies exactly these functions (same modulus). *)
+   Four more families carry BOXED values (Go type `any`, and `error` for the err* variants), so that values that
+   implement `error`, nil, typed nil pointers, NaN, zero values travel through the stages as ordinary data - a stage
+   result is a value like any other, whatever it looks like.  A boxed value is a sequence <<kind, payload...>>:
+       <<0>> nil      <<1, h...>> *histErr with history h (non-nil error)    <<2, v>> int v     <<3>> ""    <<4>> NaN
+       <<5>> a nil *int      <<6>> a nil *histErr (a typed nil that implements error)    <<7, v>> noteErr{v} (an error
+       by value)      <<8>> struct{}{}
+       "anyhist" / "errhist"        F[i](x) = a NEW non-nil error whose history is the history of x followed by i
+                                    (the history of a value that is not a *histErr starts with 100 + its kind)
+       "anyspecial" / "errspecial"  F[i](x) = the special value number (i + kind of x) of a cycle through all kinds:
+                                    every kind turns up as an intermediate result of some pipeline
+   The Go harness supplies exactly these functions (same modulus, same encoding). *)
 EXTENDS Integers, Sequences
 
 MaxN == 20
@@ -21,7 +31,21 @@ Mod == 1000003
 Mul(i) == i * i + 1
 
 Add(i) == 2 * i + 1
-F(fam, i, x) == IF fam = "seq" THEN Append(x, i) ELSE (x * Mul(i) + Add(i)) % Mod
+HistFams == {"anyhist", "errhist"}
+SpecialFams == {"anyspecial", "errspecial"}
+Hist(x) == IF x[1] = 1 THEN Tail(x) ELSE <<100 + x[1]>> \o Tail(x)
+AnyKinds == <<0, 5, 4, 3, 6, 7, 2, 8, 1>>
+ErrKinds == <<0, 6, 7, 1>>
+Special(ks, i, x) == LET kd == ks[((i + x[1]) % Len(ks)) + 1] IN
+                     CASE kd = 7 -> <<7, i>> [] kd = 2 -> <<2, 0>> [] kd = 1 -> <<1, i>> [] OTHER -> <<kd>>
+F(fam, i, x) == CASE fam = "seq" -> Append(x, i)
+                  [] fam = "arith" -> (x * Mul(i) + Add(i)) % Mod
+                  [] fam \in HistFams -> <<1>> \o Hist(x) \o <<i>>
+                  [] fam = "anyspecial" -> Special(AnyKinds, i, x)
+                  [] fam = "errspecial" -> Special(ErrKinds, i, x)
+\* arguments of the boxed families: errors, nil, plain values, the special values themselves
+AnyArgs == {<<0>>, <<1, 7>>, <<1>>, <<2, 5>>, <<2, 0>>, <<3>>, <<4>>, <<5>>, <<6>>, <<7, 3>>, <<8>>}
+ErrArgs == {<<0>>, <<1, 7>>, <<1>>, <<6>>, <<7, 3>>}
 
 (* ------------------------------------------------------------------ P *)
 RECURSIVE Composed(_, _, _)
